@@ -270,12 +270,14 @@ end
 
 def ilog2 (n : Nat) : Nat := Nat.log2 n
 
-def findBestInternalAddress (d : Device) : Bool × Nat :=
-  let (mn, mx) := findMinMax d.objects (fun _ => true)
+def findBestInternalAddress (d : Device) : M (Bool × Nat) := do
+  let (mn, mx) ← findMinMax d.objects (fun _ => true)
   let signed := decide (mn < 0)
   let m := Nat.max mn.natAbs mx.natAbs
+  -- `(m + 1).next_power_of_two()` in u64: overflows (debug panic) above 2^63
+  if m + 1 > 2 ^ 63 then throw (.panic "arith_overflow")
   let bits := Nat.max (nextPow2 (ilog2 (nextPow2 (m + 1)) + (if signed then 1 else 0))) 8
-  (signed, bits)
+  pure (signed, bits)
 
 /-! ### transform -/
 
@@ -286,7 +288,7 @@ def lower (n : Names) (deviceName : String) (d : Device) : M Lir := do
   let fieldSets ← transformFieldSets d (mirEnums.map (·.1))
   let fuel := 2 * (allObjects d.objects).length + 4
   let blocks ← collectIntoBlocks n d.config d.objects fuel none deviceName true d.objects
-  let (isg, ibits) := findBestInternalAddress d
+  let (isg, ibits) ← findBestInternalAddress d
   pure { internalSigned := isg, internalBits := ibits,
          registerAddressType := d.config.registerAddressType.getD .u8,
          blocks := blocks, fieldSets := fieldSets, enums := lirEnums, defmt := d.config.defmtFeature }
